@@ -65,6 +65,11 @@ SCENARIOS = {
     'listener-pause-on-waiting': {'program': MAIN, 'schedule': [['tick', 3], ['play'], ['tick', 1], ['resume', 7]], 'listener': [{'on': 'on_process_waiting', 'occ': 1, 'do': ['pause', 'lp']}]},
     'hook-kill-in-on-run': {'program': ASYNC, 'schedule': [], 'hooks': [{'hook': 'on_run', 'occ': 2, 'pos': 'pre', 'do': ['kill', 'hk']}]},
     'hook-kill-in-on-wait': {'program': MAIN, 'schedule': [], 'hooks': [{'hook': 'on_wait', 'occ': 1, 'pos': 'post', 'do': ['kill', 'hk']}]},
+    # the process has a loop of its own (not the thread's default loop, which never runs) and is controlled from
+    # synchronous code while no loop is running
+    'ownloop-kill-waiting': {'program': MAIN, 'schedule': [['tick', 1], ['kill', 'k']], 'decoy_loop': True},
+    'ownloop-kill-created': {'program': MAIN, 'schedule': [['kill', 'k']], 'decoy_loop': True},
+    'ownloop-pause-play': {'program': MAIN, 'schedule': [['tick', 1], ['pause', 'pm'], ['tick', 2], ['play'], ['tick', 1], ['resume', 7]], 'decoy_loop': True},
 }
 
 CONSTRUCT = {('on_create', 1), ('on_entering', 1), ('on_entered', 1)}
@@ -73,7 +78,7 @@ REQUESTER = ('on_pausing', 'on_paused', 'on_playing')
 
 def _dry(scn):
     """Fault-free run of the scenario: hook / notification counts and the reference outcome."""
-    case = {'program': scn['program'], 'schedule': scn.get('schedule', []), 'listener': scn.get('listener', []), 'hooks': scn.get('hooks', []), 'cleanup_raises': scn.get('cleanup_raises')}
+    case = {'program': scn['program'], 'schedule': scn.get('schedule', []), 'listener': scn.get('listener', []), 'hooks': scn.get('hooks', []), 'cleanup_raises': scn.get('cleanup_raises'), 'decoy_loop': scn.get('decoy_loop')}
     with Exec(case) as ex:
         ex.start()
         ex.run_schedule()
@@ -174,7 +179,7 @@ def execute(case):
     def v(clause, detail):
         viol.append({'clause': clause, 'detail': f'{_fname(fault)}: {detail}'})
 
-    run_case = {'program': scn['program'], 'schedule': scn.get('schedule', []), 'listener': scn.get('listener', []), 'hooks': scn.get('hooks', []), 'cleanup_raises': scn.get('cleanup_raises')}
+    run_case = {'program': scn['program'], 'schedule': scn.get('schedule', []), 'listener': scn.get('listener', []), 'hooks': scn.get('hooks', []), 'cleanup_raises': scn.get('cleanup_raises'), 'decoy_loop': scn.get('decoy_loop')}
     with Exec(run_case) as ex:
         w = ex.world
         if 'listener' in fault:
@@ -237,6 +242,8 @@ def execute(case):
         ex.settle(play=True, resumes=[31, 32, 33, 34], open_gates=True)
         fired = w.fault_fired
         views = ex.views()
+        if views.get('decoy_scheduled') or views.get('future_loop_is_own') is False:
+            v('left-its-loop', f"{views.get('decoy_scheduled')} callback(s) were scheduled on the thread's default loop; outcome future on the process's loop: {views.get('future_loop_is_own')}")
         pid = ex.proc.pid
         escapes = ex.loop.escapes()
         history = ex.history()
